@@ -684,6 +684,14 @@ type Writer struct {
 	MinChunkSize int
 
 	needsOpenGzEntries map[string]struct{}
+
+	// prevOffset is the offset in the blob where the current compression stream
+	// starts and prevOffsetUncompressed is the number of uncompressed bytes that
+	// had been written at that point. They live in the Writer (not in appendTar)
+	// so that a stream left open by one AppendTar call is continued correctly by
+	// the next call when MinChunkSize > 0.
+	prevOffset             int64
+	prevOffsetUncompressed int64
 }
 
 // currentCompressionWriter writes to the current w.gz field, which can
@@ -885,8 +893,6 @@ func (w *Writer) appendTar(r io.Reader, lossless bool) error {
 	if lossless {
 		tr.RawAccounting = true
 	}
-	prevOffset := w.cw.n
-	var prevOffsetUncompressed int64
 	for {
 		h, err := tr.Next()
 		if err == io.EOF {
@@ -998,16 +1004,16 @@ func (w *Writer) appendTar(r io.Reader, lossless bool) error {
 				if err := w.flushGz(); err != nil {
 					return err
 				}
-				if w.needsOpenGz(ent) || w.cw.n-prevOffset >= int64(w.MinChunkSize) {
+				if w.needsOpenGz(ent) || w.cw.n-w.prevOffset >= int64(w.MinChunkSize) {
 					if err := w.closeGz(); err != nil {
 						return err
 					}
 					ent.Offset = w.cw.n
-					prevOffset = ent.Offset
-					prevOffsetUncompressed = w.uncompressedCounter.n
+					w.prevOffset = ent.Offset
+					w.prevOffsetUncompressed = w.uncompressedCounter.n
 				} else {
-					ent.Offset = prevOffset
-					ent.InnerOffset = w.uncompressedCounter.n - prevOffsetUncompressed
+					ent.Offset = w.prevOffset
+					ent.InnerOffset = w.uncompressedCounter.n - w.prevOffsetUncompressed
 				}
 
 				ent.ChunkOffset = written
